@@ -36,9 +36,10 @@ type c08TimedReq struct {
 }
 
 type c08Frame struct {
-	Typ int `json:"typ"`
-	Len int `json:"len"`
-	Ver int `json:"ver"`
+	Typ int    `json:"typ"`
+	Len int    `json:"len"`
+	Ver int    `json:"ver"`
+	ID  uint32 `json:"id"`
 }
 
 func c08TimedRun(rq c08TimedReq) vsObs {
@@ -77,6 +78,10 @@ func c08TimedRun(rq c08TimedReq) vsObs {
 			}
 			if nowait {
 				m, err := NewByteMessage(MessageType(typ), vsPayload(7, uint64(typ)))
+				if typ == int(MsgKeepAliveAck) { // header only, as an application acknowledging keep-alives itself would send it
+					m, err = NewHdrOnlyMsg(MsgKeepAliveAck), nil
+					m.id = 4040
+				}
 				if err == nil {
 					err = c.SendNoWait(ctx, m)
 				}
@@ -105,6 +110,10 @@ func c08TimedRun(rq c08TimedReq) vsObs {
 	}
 	if has("pre") {
 		startCaller("pre", 20, false)
+		time.Sleep(2 * time.Millisecond)
+	}
+	if has("pre-ack") {
+		startCaller("pre-ack", int(MsgKeepAliveAck), true)
 		time.Sleep(2 * time.Millisecond)
 	}
 	if has("pre-shutdown") {
@@ -178,7 +187,7 @@ func c08TimedRun(rq c08TimedReq) vsObs {
 				return
 			}
 			mu.Lock()
-			frames = append(frames, c08Frame{h.Typ, len(pl), h.Ver})
+			frames = append(frames, c08Frame{h.Typ, len(pl), h.Ver, h.ID})
 			mu.Unlock()
 			switch h.Typ {
 			case int(MsgGetSupportedVersion):
@@ -230,6 +239,13 @@ func c08TimedRun(rq c08TimedReq) vsObs {
 		case <-time.After(budget):
 		}
 		startCaller("neg", 23, false)
+	}
+	if has("neg-ack") {
+		select {
+		case <-sawGSV:
+		case <-time.After(budget):
+		}
+		startCaller("neg-ack", int(MsgKeepAliveAck), true)
 	}
 	if has("neg-shutdown") {
 		select {
